@@ -48,7 +48,7 @@ def geometry_violation(doc, impl_out):
         bad = walk(page[-1])
         if bad:
             return bad
-        bad = decoration_overflow(page, limit, frozenset(nxt))
+        bad = decoration_overflow(page, limit, frozenset(nxt), styles)
         if bad:
             return bad
         bad = block_content_overflow(page, limit, styles)
@@ -81,7 +81,7 @@ def block_content_overflow(page, limit, styles):
     return walk(page[-1], True)
 
 
-def decoration_overflow(page, limit, continued=frozenset()):
+def decoration_overflow(page, limit, continued=frozenset(), styles=None):
     """"A fragmented box's own bottom padding/border also fits": for a fragment that is continued on the next
     page and keeps its bottom decoration (box-decoration-break: clone), the bottom border edge must not be
     below the page bottom - unless the box lies on the chain of first content of the page."""
@@ -90,6 +90,8 @@ def decoration_overflow(page, limit, continued=frozenset()):
         y, mt, mb, pt, pb, bt, bb, h = geo
         bottom = y + mt + bt + pt + h + pb + bb
         forced_only = on_first_chain and leaf_count(frag) <= 1
+        if styles is not None and on_first_chain and styles[int(frag[1])]['height'] != 'auto':
+            forced_only = True      # a box of definite height on the first-content chain keeps its own (taller) height
         if (pb or bb) and int(frag[1]) in continued and bottom > limit and not forced_only:
             return (f'page {page[1]}: bottom padding/border of the fragmented box {frag[1]} ends at {bottom} '
                     f'below the page bottom')
@@ -140,10 +142,16 @@ class C03(PropCheck):
             'deterministic family (harness/pm.py edge_docs): blocks that cannot be fragmented (fixed height with or '
             'without lines, empty blocks with padding/border) after 0/6/7/8 lines on a 100px page, every combination of '
             'top margin/border/padding, bottom padding, alone / wrapped / with lines, so that each edge of the box falls '
-            'on either side of the page bottom; whole pagination compared exactly; quick: a seeded sample of 250, '
-            'thorough: all 752; non-trivial = at least 2 pages')
+            'on either side of the page bottom; plus (earlier-*) blocks with bottom padding/border and an avoided break '
+            'after them, cut by find_earlier_page_break (the repaired finding earlier-break-keeps-bottom-decoration); '
+            '(spacer-*) empty boxes of height auto / 0 whose margins straddle the page bottom, at the end of the document '
+            'or not; whole pagination compared exactly; quick: the earlier-* documents + seeded samples of 60 spacer '
+            'and 200 edge documents, thorough: all; non-trivial = at least 2 pages')
         edge = list(pm.edge_docs())
-        pm_corr.add_docs(run, sec_edge, edge if run.thorough else run.rng.sample(edge, 250))
+        earlier = list(pm.earlier_break_docs())
+        spacers = list(pm.spacer_docs())        # (spacer-*) empty boxes whose margins straddle the page bottom
+        pm_corr.add_docs(run, sec_edge, earlier + (spacers if run.thorough else run.rng.sample(spacers, 60))
+                         + (edge if run.thorough else run.rng.sample(edge, 200)))
         sec_oof = run.section(
             'pm-oof-documents',
             'stage 2a of the pagination model (Model/PaginateOof): absolutely positioned boxes, full-width floats, clear; '
@@ -200,8 +208,7 @@ class C03(PropCheck):
                 'table-in-columns-rows-overflow': table_in_columns_overflow,
                 'clone-negative-margin-bottom': clone_negative_margin,
                 'table-rows-after-overflowing-first-item': lambda: corpus_overflow('table_rows_after_overflow'),
-                'stale-next-page-blank-pages': lambda: stale_next_page()[0],
-                'earlier-break-keeps-bottom-decoration': earlier_break_keeps_decoration}
+                'stale-next-page-blank-pages': lambda: stale_next_page()[0]}
 
     def judge(self, d):
         if d['section'] == 'families':
@@ -280,9 +287,10 @@ EARLIER_DECO = (
 
 
 def earlier_break_keeps_decoration():
-    """The block cut by find_earlier_page_break keeps its bottom padding (and the height of its whole layout) on
-    the first page although it is continued on the second: its border box ends below the page bottom
-    (model: Witness/C03.earlier_break_keeps_bottom_decoration)."""
+    """Repaired by 24ce8bf (was the finding earlier-break-keeps-bottom-decoration; kept as a regression probe, the
+    same document is in the pm-edge-family as earlier-*): does the block cut by find_earlier_page_break still keep
+    its bottom padding on the first page although it is continued on the second, its border box ending below the
+    page bottom? (model: Witness/C03.earlier_break_removes_bottom_decoration)."""
     from weasyprint.formatting_structure import boxes
     docs.quiet()
     document = docs.render(EARLIER_DECO)
@@ -330,5 +338,5 @@ MANIFEST = {
     'technique': 'Lean 4 theorems on the pagination model (first content of an empty page is always accepted, by mutual '
                  'induction over all box trees; overflow test monotone), exact document-level correspondence',
     'text': 'Proved for all documents of the block/paragraph grammar: a box laid out on an empty page always yields a fragment; every non-blank page strictly advances the resume position (C03.page_progress) and a blank page is followed by a non-blank one, so the page count is bounded by the content; the overflow predicate is monotone. The decision that keeps an unbreakable block inside the page is characterised (C03Geo.firstPass_keep_fits / firstPass_discards_content_overflow / firstPass_relayout_border_overflow: a kept child is the first content of the page, or margins collapse through it, or its content box and border box end above the page bottom). Geometry of every line and box is compared exactly with the real layout (random documents and a deterministic family of fixed-height / empty padded blocks around the page bottom); on the wide grammar the bottom edges of in-flow lines and table rows of real renders are checked by a Lean checker with a soundness theorem.',
-    'note': 'Partial: "every placed line fits unless first on its page" is carried for the model by the exact correspondence and for the wide grammar by sampled trace validation; footnote areas, flex and grid items are not checked geometrically. Known findings (printed, not alarms) include earlier-break-keeps-bottom-decoration: find_earlier_page_break rebuilds the box it cuts without removing its bottom padding/border (kernel-checked witness on the model, reproduced on the code).',
+    'note': 'Partial: "every placed line fits unless first on its page" is carried for the model by the exact correspondence and for the wide grammar by sampled trace validation; footnote areas, flex and grid items are not checked geometrically.',
 }
